@@ -83,6 +83,9 @@ type FnExec struct {
 	uncontracted map[string]bool
 	usedContracts map[string]bool
 	seenCallPre   map[string]bool
+	rename        map[string]string // baseline local name -> current name (pure renames only, see names.go)
+	baseParams    []string          // parameter names on the baselined tree
+	callRets      map[string]*ssa.Call // "Name@n" -> the call instruction (for the spec builtin ret)
 	localGuards   *[]string        // when set, localByName may return path-dependent locals and records the reach guard
 	lensEvaluated map[string]bool  // lensures clauses that were evaluated at some return
 	params   map[string]Val
@@ -119,7 +122,7 @@ func (e *Engine) newFnExec(fn *ssa.Function, con *Contract) *FnExec {
 	n := 0
 	fx := &FnExec{e: e, fn: fn, c: newCtx(), con: con, vals: map[ssa.Value]Val{}, reach: map[*ssa.BasicBlock]string{},
 		heapOut: map[*ssa.BasicBlock]Heap{}, heapIn: map[*ssa.BasicBlock]Heap{}, counters: map[string]int{}, loops: map[*ssa.BasicBlock]*loopInfo{},
-		names: map[string][]ssa.Value{}, epochCtr: &n, uncontracted: map[string]bool{}, usedContracts: map[string]bool{}, seenCallPre: map[string]bool{}, lensEvaluated: map[string]bool{}, params: map[string]Val{},
+		names: map[string][]ssa.Value{}, epochCtr: &n, uncontracted: map[string]bool{}, usedContracts: map[string]bool{}, seenCallPre: map[string]bool{}, callRets: map[string]*ssa.Call{}, lensEvaluated: map[string]bool{}, params: map[string]Val{},
 		mutSlices: map[ssa.Value]Val{}, localNames: map[string]bool{}, bufs: map[ssa.Value]*bufRef{}, mslices: map[ssa.Value]*mslice{}}
 	fx.entry = Heap{vers: map[string]string{}, epoch: 0}
 	fx.key = keyOfFunction(fn)
